@@ -232,6 +232,9 @@ static void run(const unsigned first, const unsigned last, const Mode mode, cons
 extern "C" void c33_pair_norequest(void) { run(0, 6, PAIR); }
 extern "C" void c33_pair_uri(void) { run(7, 10, PAIR); }
 extern "C" void c33_pair_other(void) { run(11, 15, PAIR); }
+// both tiers: 3 context bytes over class representatives
+extern "C" void c33_ctx_url(void) { run(0, 0, TRIPLE, true); }          // %U without request, 3 context bytes
+extern "C" void c33_ctx_user(void) { run(15, 15, TRIPLE, true); }       // %a, 3 context bytes
 #ifdef VF_THOROUGH
 // thorough: every place, with the first %code listed for it
 extern "C" void c33_any_norequest(void) { run(0, 6, ANY, true); }
@@ -239,8 +242,6 @@ extern "C" void c33_any_uri(void) { run(7, 10, ANY, true); }
 extern "C" void c33_any_other(void) { run(11, 15, ANY, true); }
 #else
 // quick: one representative %code for four of the places
-extern "C" void c33_ctx_url(void) { run(0, 0, TRIPLE, true); }          // %U without request, 3 context bytes
-extern "C" void c33_ctx_user(void) { run(15, 15, TRIPLE, true); }       // %a, 3 context bytes
 extern "C" void c33_any_url(void) { run(0, 0, ANY, true); }         // %U without request
 extern "C" void c33_any_host(void) { run(7, 7, ANY, true); }        // %H
 extern "C" void c33_any_header_user(void) { run(13, 13, ANY, true); }    // %R with a header value
